@@ -97,7 +97,9 @@ HookEnd(h, exit, envs, role, obs, want) ==
     /\ bad' = Chk("C10_Order", call.open /\ h = exp)
          \cup Chk("C10_ByType", call.open /\ call.type \in Def(h).types)
          \cup Chk("C10_AbortUnlessAllowed", ~call.aborted)
-         \cup Chk("C10_Env", \A k \in 1..Len(envs) : envs[k].value = EnvWinner(envs[k], role))
+         \* the value in the hook's process environment, and the value the template variable `env' shows for the same name
+         \* (the manual: "env: array containing all the environment variables")
+         \cup Chk("C10_Env", \A k \in 1..Len(envs) : envs[k].value = EnvWinner(envs[k], role) /\ envs[k].tvalue = EnvWinner(envs[k], role))
          \cup Chk("C10_Vars", obs.vars = want.vars)
          \cup Chk("C10_StdinStdout", obs.io = want.io)
     /\ call' = [call EXCEPT !.pos = IF h = exp THEN call.pos + 1 ELSE call.pos,
